@@ -846,8 +846,6 @@ def in_theorem_class(ops):
     good = True
     for op in ops:
         n = op[0]
-        if n == 'filter':
-            return False
         if not good and n in DIRTY_EXCLUDED:
             return False
         if n in ('select', 'end'):
